@@ -333,6 +333,57 @@ def _positive(test, truth, key):
     return truth
 
 
+def _continual_truth(test, truth):
+    """does `test` evaluating to `truth` imply that some <ctl>.continual() returned True?"""
+    if isinstance(test, ast.UnaryOp) and isinstance(test.op, ast.Not):
+        return _continual_truth(test.operand, not truth)
+    if isinstance(test, ast.Call) and isinstance(test.func, ast.Attribute) and test.func.attr == 'continual':
+        return truth
+    if isinstance(test, ast.BoolOp) and isinstance(test.op, ast.And) and truth:
+        return any(_continual_truth(v, True) for v in test.values)
+    if isinstance(test, ast.BoolOp) and isinstance(test.op, ast.Or) and not truth:
+        return any(_continual_truth(v, False) for v in test.values)
+    return False
+
+
+def _unguarded_steps(f, res):
+    ctls = {dotted(c.func.value) for c in paths.calls_in(f.node) if isinstance(c.func, ast.Attribute) and c.func.attr == 'continual'}
+    ctls.discard(None)
+    if len(ctls) != 1:
+        return False
+    ctl = ctls.pop()
+    loops = [n for n in ast.walk(f.node) if isinstance(n, (ast.While, ast.For)) and
+             any(isinstance(c.func, ast.Attribute) and c.func.attr == 'step' and dotted(c.func.value) not in (None, ctl) for c in paths.calls_in(n))]
+    if not loops:
+        return False
+    found = False
+    for loop in loops:
+        pths, _ = paths.function_paths(f.node, limit=4096, unroll=lambda l: 2)
+        bad = None
+        n_steps = 0
+        for ev, ex in pths:
+            asked = False
+            for e in ev:
+                if e[0] == 'head' and e[1] is loop:
+                    asked = False
+                elif e[0] == 'assume' and _continual_truth(e[1], e[2]):
+                    asked = True
+                elif e[0] == 'stmt':
+                    for c in paths.calls_in(e[1]):
+                        if isinstance(c.func, ast.Attribute) and c.func.attr == 'step' and dotted(c.func.value) not in (None, ctl):
+                            n_steps += 1
+                            if not asked and bad is None:
+                                bad = e[1]
+        if n_steps:
+            found = True
+            res.inst({'function': f.fq, 'controller': ctl, 'loop': 'not headed by continual()', 'every step after a positive answer': bad is None}, f.fq)
+            if bad is not None:
+                res.add(Finding('C20.DRV', f, 'the driver loop takes an optimizer step (`%s`) before %s.continual() was asked in that iteration: a controller '
+                                'that has already stopped (budget, patience, rejection) is stepped again, and its step count exceeds the budget'
+                                % (src(bad)[:60], ctl), node=bad, construct='step before continual'))
+    return found
+
+
 @guarded
 def rule_drv(repo, tier):
     res = RuleResult('C20.DRV', 'driver loops: step the controller exactly once on every iteration path, never reset or write '
@@ -342,6 +393,10 @@ def rule_drv(repo, tier):
         loops = [n for n in ast.walk(f.node) if isinstance(n, ast.While) and
                  any(isinstance(c.func, ast.Attribute) and c.func.attr == 'continual' for c in paths.calls_in(n.test))]
         if not loops:
+            # a loop that is not headed by the controller's test: every optimizer step in it must still come after a positive continual() answer
+            # obtained in the same iteration - otherwise a stopped controller is stepped again (once false it stays false, budget exceeded)
+            if _unguarded_steps(f, res):
+                continue
             raise AnalysisError('C20.DRV: %s has no controller-driven while loop' % f.fq)
         for loop in loops:
             ctl = [dotted(c.func.value) for c in paths.calls_in(loop.test)
@@ -541,6 +596,14 @@ def rule_clause(repo, tier):
     return res
 
 
-def rules(repo, tier):
+def _rules_core(repo, tier):
     return [rule_latch(repo, tier), rule_reset(repo, tier), rule_budget(repo, tier), rule_pat(repo, tier), rule_drv(repo, tier),
             rule_clause(repo, tier)]
+
+
+def rules(repo, tier):
+    from ..memo import rule_memo
+    return list(_rules_core(repo, tier)) + [rule_memo(repo, 'C20.MEMO', 'history independence: nothing computed from the contents of a tensor argument is kept '
+                                                      'under the identity, address or version of that tensor, in module-level storage, or published from a generator '
+                                                      'before it is complete - a later call with the same object and other contents must not be answered from it',
+                                                      ['pypose.optim.scheduler', 'pypose.utils.stepper'], floor=3)]
